@@ -41,4 +41,8 @@ MUTANTS = [
     m("c17-smoothed-starts-at-one", "R4", '            "smoothed_log_step_size": 0.0,', '            "smoothed_log_step_size": 1.0,'),
     m("c17-welford-mean-init-ones", "R4", '            "mean": np.zeros_like(chain_state.pos),', '            "mean": np.ones_like(chain_state.pos),'),
     m("c17-twin-target-ifexp", None, '        if self.log_step_size_reg_target is None:\n            adapt_state["log_step_size_reg_target"] = log(10 * init_step_size)\n        else:\n            adapt_state["log_step_size_reg_target"] = self.log_step_size_reg_target\n', '        adapt_state["log_step_size_reg_target"] = self.log_step_size_reg_target if self.log_step_size_reg_target is not None else log(10 * init_step_size)\n', twin=True),
+    m("c17-search-nan-only-first", "R3", "                if s == 0 or np.isnan(delta_h):", "                if s == 0:"),
+    m("c17-search-return-condition-inverted", "R3", "                if (step_size_too_big and delta_h <= delta_h_threshold) or (\n                    not step_size_too_big and delta_h > delta_h_threshold\n                ):", "                if (step_size_too_big and delta_h > delta_h_threshold) or (\n                    not step_size_too_big and delta_h <= delta_h_threshold\n                ):"),
+    m("c17-search-direction-reset-every-iteration", "R3", "                if s == 0 or np.isnan(delta_h):\n                    step_size_too_big", "                if True:\n                    step_size_too_big"),
+    m("c17-twin-search-isnan-first", None, "                if s == 0 or np.isnan(delta_h):", "                if np.isnan(delta_h) or s == 0:", twin=True),
 ]
